@@ -108,7 +108,7 @@ TransferIrrelevant(c) == Admissible(c) = Admissible([c EXCEPT !.transfer = "cl"]
 
 \* ---------------------------------------------------------------- judging what the real code did
 (* observation o = [status, reached, equal, capv, produced, peak]
-     status    HTTP status
+     status    HTTP status; 0 = the server produced no response at all (request never returned)
      reached   the RPC layer was handed a request body
      equal     ... and it was byte-for-byte the client's uncompressed request
      capv      the concrete max_request_bytes (0 when none)
@@ -121,6 +121,7 @@ Conforms(c, o) ==
        {"Outcome"          : x \in {1} \cap (IF Outcome(o) \in Admissible(c) THEN {} ELSE {1})}
   \cup {"ByteForByte"      : x \in {1} \cap (IF (Faults(c) = {} \/ o.status = 200) => (o.reached /\ o.equal)
                                              THEN {} ELSE {1})}
+  \cup {"Responds"         : x \in {1} \cap (IF o.status # 0 THEN {} ELSE {1})}
   \cup {"No5xx"            : x \in {1} \cap (IF o.status < 500 THEN {} ELSE {1})}
   \cup {"BoundedDecode"    : x \in {1} \cap (IF c.cap = "set" => o.produced <= o.capv + Chunk THEN {} ELSE {1})}
   \cup {"BoundedAllocation": x \in {1} \cap (IF (c.cap = "set" /\ o.peak > 0) => o.peak <= o.capv + Chunk + Slack
